@@ -306,7 +306,8 @@ pub fn predict(d: &Desc, t: &TNode, pop: &PathOp) -> Option<Prediction> {
                 Op::VecPop => {
                     let took = it.pop();
                     pr.expect = ok(Value::Vec(it), Some(took));
-                    pr.touch = vec![lenf];
+                    // the freed slot belongs to the part being changed
+                    pr.touch = vec![lenf, slot(len.saturating_sub(1), len)];
                 }
                 Op::VecPushSlice(xs) => {
                     if xs.len() <= cap - len {
@@ -326,11 +327,11 @@ pub fn predict(d: &Desc, t: &TNode, pop: &PathOp) -> Option<Prediction> {
                 Op::VecTruncate(k) => {
                     it.truncate(*k);
                     pr.expect = ok(Value::Vec(it), None);
-                    pr.touch = vec![lenf];
+                    pr.touch = vec![lenf, slot((*k).min(len), len)];
                 }
                 Op::VecClear => {
                     pr.expect = ok(Value::Vec(vec![]), None);
-                    pr.touch = vec![lenf];
+                    pr.touch = vec![lenf, slot(0, len)];
                 }
                 Op::VecRemove(i) if *i < len => {
                     let x = it.remove(*i);
@@ -340,7 +341,7 @@ pub fn predict(d: &Desc, t: &TNode, pop: &PathOp) -> Option<Prediction> {
                 Op::VecSwapRemove(i) if *i < len => {
                     let x = it.swap_remove(*i);
                     pr.expect = ok(Value::Vec(it), Some(Some(x)));
-                    pr.touch = vec![lenf, slot(*i, *i + 1)];
+                    pr.touch = vec![lenf, slot(*i, *i + 1), slot(len - 1, len)];
                 }
                 Op::VecResize(k, x) if *k <= *cap => {
                     it.resize(*k, x.clone());
@@ -382,7 +383,7 @@ pub fn predict(d: &Desc, t: &TNode, pop: &PathOp) -> Option<Prediction> {
                 Op::StrPushStr(s) => add(s.as_bytes(), &mut pr),
                 Op::StrClear => {
                     pr.expect = ok(Value::Str(vec![]), None);
-                    pr.touch = vec![lenf];
+                    pr.touch = vec![lenf, (st + data_off, st + data_off + len)];
                 }
                 Op::StrUpper => {
                     pr.expect = ok(Value::Str(bytes.to_ascii_uppercase()), None);
@@ -455,6 +456,7 @@ pub fn predict(d: &Desc, t: &TNode, pop: &PathOp) -> Option<Prediction> {
                     pr.touch = touch;
                 }
                 Op::FlexPop => {
+                    let mut touch = slot_rs.clone();
                     if vals.is_empty() {
                         pr.expect = Expect::Refused;
                         pr.refusal_cause = Some("flex pop: empty");
@@ -462,18 +464,24 @@ pub fn predict(d: &Desc, t: &TNode, pop: &PathOp) -> Option<Prediction> {
                         let mut nv = vals.clone();
                         nv.pop();
                         pr.expect = ok(Value::Flex(nv), None);
+                        touch.push((slots[vals.len() - 1], end));
                     }
-                    pr.touch = slot_rs;
+                    pr.touch = touch;
                 }
                 Op::FlexTruncate(k) => {
                     let mut nv = vals.clone();
                     nv.truncate(*k);
                     pr.expect = ok(Value::Flex(nv), None);
-                    pr.touch = slot_rs;
+                    // the removed items (from the first removed one's slot to the end) are the part being changed
+                    let mut touch = slot_rs.clone();
+                    if *k < vals.len() {
+                        touch.push((slots[*k], end));
+                    }
+                    pr.touch = touch;
                 }
                 Op::FlexClear => {
                     pr.expect = ok(Value::Flex(vec![]), None);
-                    pr.touch = slot_rs;
+                    pr.touch = vec![(st, end)];
                 }
                 _ => return None,
             }
